@@ -100,6 +100,9 @@ class RankChooser:
 
     def _rank(self, label):
         key = label[2] if isinstance(label, tuple) and len(label) > 2 else label
+        if isinstance(label, tuple) and label[0] in ('ev', 'save'):
+            # completions of collaborator calls (event callbacks, store saves) form their own priority class
+            return self.ranks.get(f'{label[0]}:{key}', self.default)
         return self.ranks.get(key, self.default)
 
     def choose(self, loop, blocking):
